@@ -7,7 +7,7 @@ Linearization points (one atomic operation each, inside the call they belong to)
 * `GetStream` returning `id, true`  — its successful CAS on the word (`g5 → g7 id`);
 * `Clear(id)` returning `true`      — its successful CAS (`c9 → c11 id`);
 * `Clear(id)` returning `false`     — the load that saw the bit clear (`c8`, or `c10` after a failed CAS);
-* `Clear(id)` beyond the capacity   — the call itself (index panic).
+* `Clear(id)` beyond the capacity   — the call itself (answers false without any atomic operation).
 A failing `GetStream` has no linearization point (it saw every id in use, but at different moments: the property
 only asks for `C08_no_false_exhaustion`), `Available()` has none either (the counter lags behind the bitset:
 `C08_cex_available_transient`). -/
@@ -56,7 +56,7 @@ theorem lin_tstep {n : Nat} (hn : 0 < n) (sh : Shared) (pc : PC) (hlen : sh.word
     have htb : tbl.getD id false = false := by rw [hL.tblOk id hlt, hb]; simp
     refine ⟨{ tbl := tbl.setIfInBounds id false, cnt := cnt }, ?_, ?_⟩
     · simp only [specAccepts, specStep]
-      rw [if_pos ⟨hlt, htb.symm⟩]; simp
+      rw [if_pos htb.symm]; simp
     · refine ⟨by simpa using hL.size, ?_, hL.count⟩
       intro x hx
       rw [getD_setIf _ _ _ _ (by rw [hL.size]; exact hlt), hL.tblOk x hx]
@@ -137,7 +137,7 @@ theorem lin_tstep {n : Nat} (hn : 0 < n) (sh : Shared) (pc : PC) (hlen : sh.word
         simp only [hlt, ↓reduceIte] at hcnt
         refine ⟨{ tbl := tbl.setIfInBounds id false, cnt := cnt - 1 }, ?_, ?_⟩
         · simp only [lpOf, h, ↓reduceIte, specAccepts, specStep]
-          rw [if_pos ⟨hlt, htb.symm⟩]
+          rw [if_pos htb.symm]
         · rw [h5]
           refine ⟨by simpa using hL.size, ?_, ?_⟩
           · intro x hx
@@ -158,10 +158,13 @@ theorem lin_tstep {n : Nat} (hn : 0 < n) (sh : Shared) (pc : PC) (hlen : sh.word
         rw [hw]
         simpa only [lpOf, hr, hb, ↓reduceIte, ne_eq, not_false_eq_true] using hfalse id hlt hbit
       · exact hsame (by simp only [lpOf, hr, hb, ↓reduceIte]) hw
-    · refine ⟨{ tbl := tbl, cnt := cnt }, ?_, by rw [hw]; exact hL⟩
-      have hge : 64 * n ≤ id := by unfold bucketOffset at hr; omega
-      simp only [lpOf, hr, ↓reduceIte, specAccepts, specStep]
-      rw [if_pos hge]
+    · have hge : tbl.size ≤ id := by rw [hL.size]; unfold bucketOffset at hr; omega
+      have htb : tbl.getD id false = false := by
+        rw [Array.getD_eq_getD_getElem?, Array.getElem?_eq_none hge]; rfl
+      refine ⟨{ tbl := tbl.setIfInBounds id false, cnt := cnt }, ?_, ?_⟩
+      · simp only [lpOf, hr, ↓reduceIte, specAccepts, specStep]
+        rw [if_pos htb.symm]; simp
+      · rw [hw]; simp only [setIfInBounds_oob tbl id hge]; exact hL
   | c10 id =>
     have hw : (tstep sh (.c10 id)).1.words = sh.words := by
       simp only [tstep]; split <;> rfl
